@@ -10,6 +10,7 @@ CONSTANTS
   MaxKills = 1
   MaxInterrupts = 1
   RepairPartial = TRUE
+  TailSave = TRUE
   Planned = FALSE
 SPECIFICATION LiveSpec
 INVARIANT TypeOK
